@@ -170,7 +170,7 @@ def main():
     for r in results:
         functions.append({'contract': r['contract'], 'target': r.get('target'), 'status': r['status'],
                           'paths': r.get('paths'), 'source_digest': r.get('source_digest'),
-                          'reason': r.get('reason')})
+                          'reason': r.get('reason'), 'assumed': r.get('assumed')})
         if r['status'] != 'ok':
             undecided.append({'contract': r['contract'], 'status': r['status'], 'reason': r.get('reason')})
         for oid, o in r['obligations'].items():
